@@ -7,6 +7,8 @@ import (
 	"strings"
 
 	"github.com/xjslang/xjs/ast"
+	"github.com/xjslang/xjs/lexer"
+	"github.com/xjslang/xjs/parser"
 	"github.com/xjslang/xjs/token"
 	"xjsverif/internal/jsgen"
 	"xjsverif/internal/treegen"
@@ -33,6 +35,49 @@ func c13Strict(c *oracleCtx, src string) {
 			a, b := stmtListStr(st.prog.Statements), stmtListStr(to.prog.Statements)
 			if a != b {
 				c.violation("tolerant-tree-differs", "strict and tolerant trees differ "+firstDiff(a, b), input)
+			}
+		})
+	}
+}
+
+// c13Plugin: (a) with a parser-level plugin in place — an expression interceptor that gives a meaning to `#` (a token the
+// lexer reports as ILLEGAL): `#x` is a prefix operator. What strict mode accepts with the plugin, tolerant mode reads the same.
+func c13Plugin(c *oracleCtx, src string) {
+	parse := func(flags string) plainParse {
+		pb := parser.NewBuilder(lexer.NewBuilder())
+		pb.UseExpressionInterceptor(func(p *parser.Parser, next func() ast.Expression) ast.Expression {
+			if p.CurrentToken.Type == token.ILLEGAL && p.CurrentToken.Literal == "#" {
+				tok := p.CurrentToken
+				p.NextToken()
+				return &ast.UnaryExpression{Token: tok, Operator: "#", Right: p.ParseExpressionWithPrecedence(parser.UNARY)}
+			}
+			return next()
+		})
+		if strings.Contains(flags, "t") {
+			pb.WithTolerantMode(true)
+		}
+		if strings.Contains(flags, "s") {
+			pb.WithSmartSemicolon(true)
+		}
+		p := pb.Build(src)
+		prog, err := p.ParseProgram()
+		return plainParse{prog: prog, err: err, errs: p.Errors(), p: p}
+	}
+	for _, smart := range []string{"", "s"} {
+		input := map[string]any{"kind": "plugin", "src": hexOf(src), "text": src, "flags": smart, "plugin": "an expression interceptor reads `#x` as a prefix operator"}
+		guard(c, "panic", input, func() {
+			st := parse(smart)
+			if len(st.errs) > 0 || st.err != nil {
+				return
+			}
+			c.bump("a-plugin-accepts")
+			to := parse(smart + "t")
+			if len(to.errs) > 0 || to.err != nil {
+				c.violation("tolerant-rejects-strict-accepted", "with the plugin strict mode accepts, tolerant reports: "+errsTextB(to.errs), input)
+				return
+			}
+			if a, b := stmtListStr(st.prog.Statements), stmtListStr(to.prog.Statements); a != b {
+				c.violation("tolerant-tree-differs", "with the plugin strict and tolerant trees differ "+firstDiff(a, b), input)
 			}
 		})
 	}
@@ -236,6 +281,8 @@ func oracleC13(c *oracleCtx) {
 				c13Strict(c, in.src)
 			case "c":
 				c13Smart(c, in.src)
+			case "plugin":
+				c13Plugin(c, in.src)
 			case "join", "truncate":
 				c13Tolerant(c, recStr(in.rec, "kind"), unhex(recStr(in.rec, "orig")), in.src, recInt(in.rec, "cut"))
 			case "d":
@@ -254,6 +301,10 @@ func oracleC13(c *oracleCtx) {
 		"let c = `ab\ncd`[1]", "x = `a\nb`(1)", "r = f(`a\nb`)[0]", "y = `a\r\nb`[0](2)", "z = \"a\\\nb\"[0]", "let c = `ab\ncd`\n[1]"} {
 		c13Strict(c, s)
 		c13Smart(c, s)
+		c.count(s)
+	}
+	for _, s := range []string{"let n = #items + 1", "f(#a, #b)\n#c", "x = #y\n#z.k", "if (#a) { b = #c }", "# # a", "a = b #"} {
+		c13Plugin(c, s)
 		c.count(s)
 	}
 	// the modes are options of the builder: switched after a parser was built, they hold for the next parser
